@@ -523,7 +523,8 @@ class Run:
                     raise run.injected
                 if run.case.get("probe_ctx"):
                     # C12: a context created inside prepare()/start() takes the caller's context as parent
-                    c = Context()
+                    # (also when it names the current context as its parent itself, which is the same as leaving the parent out)
+                    c = Context(current_context()) if (len(path) + (phase == "start")) % 2 else Context()
                     if c.parent is not run.caller_ctx:
                         run.ctx_parent_ok = False
                     if phase == "start" and run.app_tg is not None:
